@@ -289,6 +289,205 @@ class RoundTripFile(Component):
         op, cf = parse_case(case)
         return [f'fe={cf.get("fe")}', f'reader={cf.get("reader")}', f'bps={cf.get("bps")}', f'ch={cf.get("ch")}']
 
+# ------------------------------------------------------------------------------------------------
+# C06 / C07 — operation histories on the reader front-ends
+# ------------------------------------------------------------------------------------------------
+import vlib as _vlib
+
+def pcm_bytes(pcm, bps, be):
+    n = (bps + 7) // 8
+    out = bytearray()
+    for s in pcm:
+        out += int(s).to_bytes(n, 'big' if be else 'little', signed=True)
+    return bytes(out)
+
+class ReaderHist(Component):
+    """files written by the real encoder (non-periodic data, every seek-table policy), then random
+    histories of read/fill/consume/next/seek on each reader; judged against an ideal cursor over the PCM"""
+    ops = ('hist',)
+    profiles = ('release',)
+    def __init__(self, mode):
+        self.mode = mode             # 'seek' (C06) or 'noseek' (C07)
+        self.name = 'hist-' + mode
+    def make_files(self, rng, nfiles, tier):
+        cases = []; metas = []
+        for i in range(nfiles):
+            ch = rng.choice([1, 2, 2, 3, 4, 8]) if i % 4 else rng.randint(1, 8)
+            bps = rng.choice([8, 16, 24, 32, 12, 20, 4, 17])
+            bs = rng.choice([16, 16, 20, 32, 64])
+            nblocks = rng.randint(1, 7)
+            frames = bs * nblocks + rng.choice([0, 0, 1, 5, bs - 1])
+            pcm, _ = gen.pcm_multi(rng, frames, ch, bps, 'noise' if bps > 4 else 'edge')
+            rate = rng.choice([44100, 48000, 16, 40, 100])
+            seek = rng.choice(['off', 'frames:1', 'frames:2', 'frames:3', 'secs:1', 'default'])
+            total = rng.random() < 0.6
+            f = {'fe': 'sample', 'rate': rate, 'ch': ch, 'bps': bps, 'bs': bs, 'seek': seek, 'pad': rng.choice([0, 40]),
+                 'lpc': rng.choice(['none', '2', '8'])}
+            if total:
+                f['total'] = frames * ch
+            f['pcm'] = gen.join(pcm)
+            cases.append('wr ' + gen.fields_str(f))
+            metas.append({'ch': ch, 'bps': bps, 'bs': bs, 'frames': frames, 'pcm': pcm, 'seek': seek, 'total': total, 'rate': rate})
+        outs, herr = _vlib.run_harness('release', cases)
+        files = []
+        for m, o in zip(metas, outs):
+            h, cls, f = parse_outcome(o)
+            if h == 'ok' and 'file' in f:
+                m['file'] = f['file']
+                files.append(m)
+        return files
+    def history(self, rng, m, reader, nops):
+        ch, bps, bs, frames = m['ch'], m['bps'], m['bs'], m['frames']
+        unit = {'byte': ch * ((bps + 7) // 8), 'sample': ch, 'iter': ch, 'chan': 1}[reader]
+        total_units = frames * unit
+        ops = []
+        def target():
+            r = rng.random()
+            fb = bs * unit
+            if r < 0.15: return 0
+            if r < 0.45: return max(0, rng.randint(0, frames // bs + 1) * fb + rng.choice([-1, 0, 1]) * (1 if reader == 'byte' else unit if reader != 'chan' else 1))
+            if r < 0.6: return total_units + rng.choice([-1, 0, 1, 2, 1000])
+            if r < 0.65: return 10 ** 12
+            return rng.randint(0, total_units)
+        for k in range(nops):
+            r = rng.random()
+            if reader == 'iter':
+                ops.append('x'); continue
+            if self.mode == 'seek' and r < 0.3:
+                if reader == 'byte':
+                    kind = rng.choice(['S', 'S', 'C', 'E'])
+                    if kind == 'S': ops.append(f'sS{max(0, target())}')
+                    elif kind == 'C': ops.append(f'sC{rng.choice([0, 1, -1, unit, -unit, bs * unit, -bs * unit, rng.randint(-total_units, total_units), 10**9])}')
+                    else: ops.append(f'sE{rng.choice([0, -1, -unit, -bs * unit, -rng.randint(0, total_units), -total_units, -total_units - 1, 1, 5])}')
+                else:
+                    t = target()
+                    ops.append(f'ss{max(0, t // (unit if reader == "sample" else 1))}')
+            elif r < 0.6 and reader != 'chan':
+                ops.append(f'r{rng.choice([1, 2, 3, unit, unit + 1, 7, bs * unit, bs * unit + 1, 3 * bs * unit, 10 ** 6 if rng.random() < 0.1 else 5])}')
+            elif r < 0.8:
+                ops.append('f')
+            else:
+                ops.append(f'c{rng.choice([0, 1, 2, unit, bs * unit // 2, bs * unit, 10 ** 6])}')
+        if self.mode == 'noseek':
+            # drain and poll after the end
+            if reader == 'iter':
+                ops += ['x'] * (total_units + 3)
+            elif reader == 'chan':
+                ops += ['f', 'c1000000'] * (frames // bs + 3) + ['f', 'f']
+            else:
+                ops += [f'r{bs * unit}'] * (frames // bs + 3) + ['f', f'r5', 'f']
+        return ops
+    def cases(self, rng, tier, boost):
+        nfiles = 12 if tier == 'quick' else 80
+        per = (self.budget(tier, boost, 900, 40000)) // nfiles
+        files = self.make_files(rng, nfiles, tier)
+        out = []
+        for m in files:
+            for k in range(per):
+                reader = rng.choice(['byte', 'sample', 'chan'] + (['iter'] if self.mode == 'noseek' else []))
+                nops = rng.randint(1, 12) if tier == 'quick' else rng.randint(1, 40)
+                ops = self.history(rng, m, reader, nops)
+                f = {'reader': reader, 'endian': rng.choice(['le', 'be']), 'ch': m['ch'], 'bps': m['bps'], 'frames': m['frames'],
+                     'bs': m['bs'], 'seekpol': m['seek'], 'ops': ';'.join(ops)}
+                if self.mode == 'noseek':
+                    r = rng.random()
+                    if r < 0.3: f['max'] = rng.choice([1, 2, 5, 17])
+                    elif r < 0.5: f['split'] = gen.join(sorted(set(rng.randint(0, len(m['file']) // 2) for _ in range(rng.randint(1, 8)))))
+                f['pcm'] = gen.join(m['pcm'])
+                f['bytes'] = m['file']
+                out.append('hist ' + gen.fields_str(f))
+        return out
+    def oracle(self, case, impl, profile):
+        op, cf = parse_case(case)
+        h, cls, f = parse_outcome(impl)
+        reader = cf['reader']
+        if h == 'panic':
+            return (f'hist:{reader}:panic:{cls}', 'reader panicked: ' + cls)
+        if h != 'ok':
+            return (f'hist:{reader}:open-failed', impl[:200])
+        ch, bps = int(cf['ch']), int(cf['bps'])
+        pcm = ints(cf['pcm'])
+        be = cf.get('endian') == 'be'
+        if reader == 'byte':
+            data = list(pcm_bytes(pcm, bps, be)); unit = 1
+        elif reader == 'chan':
+            data = [tuple(pcm[i * ch:(i + 1) * ch]) for i in range(len(pcm) // ch)]; unit = 1
+        else:
+            data = pcm; unit = 1
+        end = len(data)
+        pos = 0; avail = 0; eos = False; lastseek = ''
+        ops = cf['ops'].split(';'); tr = f.get('trace', '').split(';')
+        if len(ops) != len(tr):
+            return (f'hist:{reader}:trace-length', f'{len(ops)} ops but {len(tr)} trace items')
+        def decode(item):
+            body = item.split(':', 1)[1] if ':' in item else ''
+            if body.startswith('ERR'):
+                return None
+            if reader == 'byte':
+                return [] if body in ('-', '') else list(bytes.fromhex(body))
+            if reader == 'chan':
+                if body.replace('|', '').replace('-', '') == '':
+                    return []
+                chans = [ints(c) for c in body.split('|')]
+                if len(set(len(c) for c in chans)) != 1:
+                    return 'ragged'
+                return [tuple(c[i] for c in chans) for i in range(len(chans[0]))]
+            return ints(body) if body not in ('-', '') else []
+        for o, t in zip(ops, tr):
+            if o[0] in 'rfx':
+                d = decode(t)
+                if d is None:
+                    return (f'hist:{reader}:unexpected-error{lastseek}', f'op {o} returned an error on a valid stream: {t[:60]}')
+                if d == 'ragged':
+                    return (f'hist:{reader}:ragged-channels', 'channel slices of different lengths')
+                if o[0] == 'x':
+                    d = [] if t == 'x:-' else [int(t.split(':')[1])]
+                if len(d) == 0:
+                    if pos != end:
+                        return (f'hist:{reader}:premature-eos{lastseek}', f'end of stream signalled at {pos} of {end}')
+                    eos = True
+                else:
+                    if eos:
+                        return (f'hist:{reader}:eos-not-idempotent', f'data returned after end-of-stream had been signalled (op {o})')
+                    if o[0] == 'r' and len(d) > int(o[1:]):
+                        return (f'hist:{reader}:read-too-long', 'read returned more than requested')
+                    if data[pos:pos + len(d)] != d:
+                        return (f'hist:{reader}:data-mismatch{lastseek}', f'op {o} at position {pos} returned data that is not the PCM at that position')
+                    if o[0] == 'f':
+                        avail = len(d)
+                    else:
+                        pos += len(d); avail = 0
+            elif o[0] == 'c':
+                k = int(t.split(':')[1]) if ':' in t else 0
+                if k > avail:
+                    return (f'hist:{reader}:harness', 'consume beyond fill')
+                pos += k; avail -= k
+            elif o[0] == 's':
+                avail = 0
+                if reader == 'byte':
+                    kind, d = o[1], int(o[2:])
+                    tgt = d if kind == 'S' else pos + d if kind == 'C' else end + d
+                else:
+                    kind = 's'; tgt = int(o[2:]) * (ch if reader == 'sample' else 1)
+                lastseek = ':after-seek-' + kind
+                ok = t.startswith('s:ok')
+                if 0 <= tgt <= end:
+                    if not ok:
+                        return (f'hist:{reader}:seek-should-succeed:{kind}', f'seek {o} to {tgt} (of {end}) failed: {t}')
+                    if reader == 'byte' and int(t.split(':')[2]) != tgt:
+                        return (f'hist:{reader}:seek-position:{kind}', f'seek {o} returned position {t.split(":")[2]}, expected {tgt}')
+                    pos = tgt; eos = False
+                else:
+                    if ok:
+                        return (f'hist:{reader}:seek-should-fail:{kind}', f'seek {o} to {tgt} beyond the end ({end}) reported success')
+                    return None        # position after a failed seek is unspecified: stop judging here
+        return None
+    def nontrivial(self, case, impl):
+        return impl.startswith('ok') and impl.count(';') >= 2
+    def classify(self, case, impl):
+        op, cf = parse_case(case)
+        return ['reader=' + cf['reader'], 'seekpol=' + cf.get('seekpol', '?'), 'ch=' + cf['ch'], 'bps=' + cf['bps']]
+
 PROPS = {}
 NOT_YET = {}
 
@@ -371,4 +570,42 @@ PROPS['C19'] = dict(
     note='The bit count of the FIXED candidate for a constant block (a few dozen bits) is measured on the real encoder, not derived from a model of write_residuals.',
     trusted_base=COMMON_TRUST,
     assumptions=['the recorded candidate size equals the bits later played back (BitRecorder is trusted)'],
+)
+
+PROPS['C07'] = dict(
+    module='FlacModel.Props.C07',
+    theorems=['Flac.C07.readFrame_good', 'Flac.C07.step_exact', 'Flac.C07.reader_exactly_once', 'Flac.C07.fresh_reader_prefix',
+              'Flac.C07.eos_idempotent', 'Flac.C07.eos_only_at_end', 'Flac.C07.byte_eq_serialised_samples', 'Flac.C07.chan_eos_idempotent'],
+    components=[ReaderHist('noseek')],
+    rule='12 (quick) / 80 (thorough) files written by the real encoder (1-8 channels, depths 4-32, non-periodic noise, short final blocks, declared and '
+         'undeclared totals) x random histories over read(n)/fill/consume(k)/iterate on the byte, sample, iterator and channel readers, both byte orders, '
+         'with the underlying source fragmented (1/2/5/17-byte reads or random split points), each history then drained and polled after the end; '
+         'judged against an ideal cursor over the PCM and compared op by op with the Lean reader state machines; non-trivial = at least three trace items',
+    claim='reader_exactly_once: for EVERY operation list over read/fill/consume on a valid stream the reader state machine never errs and '
+          '(everything delivered) ++ (buffer ++ unread frames) = the whole decoded stream - proved by induction over the operation list from the one-step lemma '
+          'step_exact and the decoder invariant readFrame_good (end-of-stream accounting against STREAMINFO, short-block rule). eos_idempotent / '
+          'chan_eos_idempotent: once nothing remains every further call signals end again; eos_only_at_end: an empty read means everything was delivered; '
+          'byte_eq_serialised_samples: byte stream = sample stream serialised at ceil(depth/8) bytes.',
+    note='Independence from how the source fragments its reads is a property of the model by construction (it never sees read boundaries) and is '
+         'exhibited for the implementation by fragmenting sources; BufReader/read_exact are trusted. The full exactly-once theorem for the channel reader is '
+         'covered by the correspondence; only its end-of-stream theorem is mechanised.',
+    trusted_base=COMMON_TRUST,
+    assumptions=['valid stream: non-empty frames, total unknown or equal to the sum of frame lengths, only the last frame <= 14 samples'],
+)
+
+PROPS['C06'] = dict(
+    module='FlacModel.Props.C06',
+    theorems=['Flac.C06.seek_lands', 'Flac.C06.skipTo_spec', 'Flac.C06.seek_refines_cursor', 'Flac.C06.end_seek_in_bytes',
+              'Flac.C06.start_current_targets', 'Flac.C06.lastPointLe_mem'],
+    components=[ReaderHist('seek')],
+    rule='same files as C07 with every seek-table policy the encoder offers (off, every frame, every 2/3 frames, every second at low rates, default) x '
+         'random interleavings of read/fill/consume with Start/Current/End byte seeks and sample seeks, targets biased to 0, frame boundaries +-1, end-1, end, '
+         'end+1, huge; judged against a cursor over the PCM (position returned, data at the position, failure beyond the end)',
+    claim='seek_refines_cursor: for every stream whose seek table is truthful and every target, Decoder::seek + the skip-forward loop leave the reader '
+          'holding exactly the decoded stream from the requested unit on (bytes for the byte reader, samples for the sample reader) and fail when the target '
+          'lies beyond the end, never delivering data from elsewhere; seek_lands: the decoder lands on a frame boundary at or before the target in a good '
+          'state; end_seek_in_bytes / start_current_targets: End-relative requests are measured in bytes, Start literally, Current from bytes delivered.',
+    note='TableTruthful is a hypothesis (C09 shows it for files written by the crate). The channel reader seek is covered by the correspondence and oracle only.',
+    trusted_base=COMMON_TRUST,
+    assumptions=['TableTruthful: every defined seek point names the first sample and byte offset of a real frame'],
 )
